@@ -55,9 +55,41 @@ class Facts:
                             b["root"] = homes[0]
                             if b.get("parent") in absorbed_set:
                                 b["parent"] = homes[0]
+            self._expand_struct_consts(c)
             for b in c["bodies"]:
                 b["crate"] = cname
                 self.bodies[(cname, b["path"])] = b
+
+    @staticmethod
+    def _expand_struct_consts(c):
+        """Normalisation: `x = NAMED_CONST` where the constant is a plain struct of scalars (const-evaluated by the
+        driver to {field: value}) becomes the struct literal it stands for, so that rules which look at literals
+        (placeholders, sentinels) see through a named constant."""
+        vals = {k["path"]: k for k in c.get("consts", []) if isinstance(k.get("value"), dict) and k["value"]
+                and all(isinstance(v, (int, bool)) for v in k["value"].values())}
+        if not vals:
+            return
+        adts = {a["path"]: a for a in c.get("adts", [])}
+        for b in c["bodies"]:
+            for blk in b["blocks"]:
+                for s_ in blk["stmts"]:
+                    if s_.get("k") != "assign" or "use" not in s_["rv"]:
+                        continue
+                    k = s_["rv"]["use"].get("const") if isinstance(s_["rv"]["use"], dict) else None
+                    if not k or k.get("def") not in vals:
+                        continue
+                    kv = vals[k["def"]]
+                    adt = adts.get(kv["ty"]) or adts.get(kv["ty"].split("<")[0])
+                    if adt is None or adt.get("kind") != "Struct" or len(adt["variants"]) != 1:
+                        continue
+                    flds = adt["variants"][0]["fields"]
+                    if [f["name"] for f in flds] != list(kv["value"].keys()) and set(f["name"] for f in flds) != set(kv["value"].keys()):
+                        continue
+                    s_["rv"] = {"agg": "adt", "adt": adt["path"], "variant": adt["variants"][0]["name"], "vidx": 0,
+                                "fields": [f["name"] for f in flds],
+                                "ops": [{"const": {"ty": f["ty"], "text": "%s (%s.%s)" % (kv["value"][f["name"]], k["def"], f["name"]),
+                                                   "val": int(kv["value"][f["name"]])}} for f in flds],
+                                "from_const": k["def"]}
 
     def crate(self, name):
         return self.crates[name]
